@@ -185,3 +185,201 @@ def clear (m : CM V) : CM V := { m with cache := m.cache.clear }
 
 end CM
 end SharkVerif.Cache
+
+/-! ### `swapLineIndices` case by case on the intrusive list
+
+`boost::intrusive::list<CacheEntry>`: a node *is* its `CacheEntry`, identified
+here by its index in `m_cacheEntry`; an iterator is `some node` or `none`
+(`end()`).  Iterators to nodes that are not erased stay valid (intrusive list),
+which is what the C++ relies on in the "both cached, apart" case. -/
+namespace SharkVerif.Cache
+namespace IL
+
+/-- `++it` for `it = iterator_to(x)`: the node after `x`, or `end()` -/
+def next : List Nat → Nat → Option Nat
+  | [], _ => none
+  | y :: t, x => if y = x then t.head? else next t x
+
+/-- `insert(pos, x)`: link node `x` in front of `pos` (`none` = `end()`) -/
+def insert : List Nat → Option Nat → Nat → List Nat
+  | l, none, x => l ++ [x]
+  | [], some _, x => [x]
+  | y :: t, some p, x => if y = p then x :: y :: t else y :: insert t (some p) x
+
+/-- `erase(iterator_to(x))` -/
+def erase (l : List Nat) (x : Nat) : List Nat := l.erase x
+
+/-- the list part of `swapLineIndices(i,j)`, branch by branch as in the C++;
+`ci`/`cj` are `isCached(i)`/`isCached(j)` -/
+def swapList (l : List Nat) (ci cj : Bool) (i j : Nat) : List Nat :=
+  if ci && !cj then
+    -- Iterator pos = iterator_to(cachei); insert(pos,cachej); erase(pos)
+    erase (insert l (some i) j) i
+  else if !ci && cj then
+    erase (insert l (some j) i) j
+  else if ci && cj then
+    let incposi := next l i
+    let incposj := next l j
+    if incposi = some j then
+      -- erase(posj); insert(posi,cachej)
+      insert (erase l j) (some i) j
+    else if incposj = some i then
+      insert (erase l i) (some j) i
+    else
+      -- erase both, insert(incposi,cachej), insert(incposj,cachei)
+      insert (insert (erase (erase l i) j) incposi j) incposj i
+  else l
+
+end IL
+
+namespace LRU
+variable {V : Type}
+
+/-- `swapLineIndices(i,j)` as written: the list surgery of the four cases, then
+`std::swap` of the two `length` and `data` fields -/
+def swapLineIndicesIL (s : LRU V) (i j : Nat) : LRU V :=
+  if i = j || (!s.isCached i && !s.isCached j) then s
+  else { s with lru := IL.swapList s.lru (s.isCached i) (s.isCached j) i j
+                lines := upd (upd s.lines i (s.lines j)) j (s.lines i) }
+
+end LRU
+
+/-! ### buffer identities (the `data` pointers)
+
+`LRUP` = the cache plus, per line, the identity of the buffer its `data`
+pointer addresses, and an allocation counter: every `new T[size]` gets the next
+identity.  All cache operations are those of `LRU` (projection `core`), so
+every theorem about `LRU` holds for `LRUP.core` verbatim. -/
+structure LRUP (V : Type) where
+  core : LRU V
+  ids  : Nat → Nat
+  next : Nat
+
+namespace LRUP
+variable {V : Type}
+
+def init (maxSize : Nat) : LRUP V := { core := LRU.init maxSize, ids := fun _ => 0, next := 1 }
+
+/-- identity of the buffer of line `i` (0 = not cached; the C++ pointer is then dangling) -/
+def bufferOf (s : LRUP V) (i : Nat) : Nat := if s.core.isCached i then s.ids i else 0
+
+/-- `getCacheLine`: a buffer is allocated unless the line is long enough already -/
+def getCacheLine (s : LRUP V) (i size : Nat) (fresh : Nat → V) : LRUP V :=
+  if s.core.isCached i && (s.core.lines i).length ≥ size then
+    { s with core := s.core.getCacheLine i size fresh }
+  else
+    { core := s.core.getCacheLine i size fresh, ids := upd s.ids i s.next, next := s.next + 1 }
+
+def resizeLine (s : LRUP V) (i size : Nat) (fresh : Nat → V) : LRUP V :=
+  { core := s.core.resizeLine i size fresh, ids := upd s.ids i s.next, next := s.next + 1 }
+
+def markForDeletion (s : LRUP V) (i : Nat) : LRUP V := { s with core := s.core.markForDeletion i }
+
+/-- `swapLineIndices`: the `data` pointers are swapped along with the lengths -/
+def swapLineIndices (s : LRUP V) (i j : Nat) : LRUP V :=
+  if i = j || (!s.core.isCached i && !s.core.isCached j) then s
+  else { s with core := s.core.swapLineIndicesIL i j
+                ids := upd (upd s.ids i (s.ids j)) j (s.ids i) }
+
+def clear (s : LRUP V) : LRUP V := { s with core := s.core.clear }
+
+end LRUP
+
+/-! ### CachedMatrix over a concrete base-matrix class
+
+`BaseOps W V` are the member functions `CachedMatrix<Matrix>` calls on its base
+matrix.  `CMG` follows `CachedMatrix.h` statement by statement: the freshly
+allocated part of a line holds junk until `base->row(k,cached,end,line+cached)`
+overwrites it. -/
+structure BaseOps (W V : Type) where
+  entry : W → Nat → Nat → V
+  row   : W → Nat → Nat → Nat → List V        -- row(k,start,end,storage): the values written
+  flip  : W → Nat → Nat → W
+
+structure CMG (W V : Type) where
+  n     : Nat
+  w     : W
+  cache : LRUP V
+
+namespace CMG
+variable {W V : Type}
+
+def init (n : Nat) (w : W) (maxSize : Nat) : CMG W V := { n := n, w := w, cache := LRUP.init maxSize }
+
+/-- `std::copy(vals, line+off)`: overwrite `line[off .. off+vals.length)`;
+`none` if that range leaves the buffer -/
+def writeAt (line : List V) (off : Nat) (vals : List V) : Option (List V) :=
+  if off + vals.length ≤ line.length then
+    some (line.take off ++ vals ++ line.drop (off + vals.length))
+  else none
+
+/-- `row(k,start,end)`; `none` = a write outside the line buffer -/
+def row (ops : BaseOps W V) (junk : Nat → V) (m : CMG W V) (k _start stop : Nat) : Option (CMG W V) :=
+  let cached := m.cache.core.lineLength k
+  let c1 := m.cache.getCacheLine k stop junk
+  if stop > cached then
+    match writeAt (c1.core.lines k) cached (ops.row m.w k cached stop) with
+    | some line => some { m with cache := { c1 with core := { c1.core with lines := upd c1.core.lines k line } } }
+    | none => none
+  else some { m with cache := c1 }
+
+/-- read `line[a .. b)`; `none` if the range leaves the buffer -/
+def readRange (line : List V) (a b : Nat) : Option (List V) :=
+  if b ≤ line.length then some ((line.drop a).take (b - a)) else none
+
+/-- `row(k,start,end,storage)`: `storage` is a buffer of exactly `end-start`
+junk values; the result is its contents afterwards, or `none` if a read leaves
+the cache line or a write leaves the storage -/
+def rowStorage (ops : BaseOps W V) (junk : Nat → V) (m : CMG W V) (k start stop : Nat) : Option (List V) :=
+  let line := m.cache.core.lines k
+  let cached := min line.length stop
+  let storage0 := (List.range (stop - start)).map junk
+  let s1 : Option (List V) :=
+    if start < cached then
+      match readRange line start cached with
+      | some vals => writeAt storage0 0 vals
+      | none => none
+    else some storage0
+  let first := max cached start
+  match s1 with
+  | none => none
+  | some s1 => if first < stop then writeAt s1 (first - start) (ops.row m.w k first stop) else some s1
+
+/-- body of the loop of `flipColumnsAndRows` for one line (`i < j`); `none` = an
+access outside the line buffer -/
+def flipLineG (ops : BaseOps W V) (w : W) (i j k : Nat) (line : List V) : Option (List V) :=
+  if line.length ≤ i then some line
+  else if j < line.length then
+    -- std::swap(line[i], line[j])
+    match line[i]?, line[j]? with
+    | some a, some b => some ((line.set i b).set j a)
+    | _, _ => none
+  else
+    -- line[i] = base->entry(k,j)
+    if i < line.length then some (line.set i (ops.entry w k j)) else none
+
+/-- `for (k = 0; k < size(); k++)` over the lines -/
+def flipLines (ops : BaseOps W V) (w : W) (i j : Nat) : List Nat → (Nat → List V) → Option (Nat → List V)
+  | [], lines => some lines
+  | k :: ks, lines =>
+    match flipLineG ops w i j k (lines k) with
+    | none => none
+    | some l => flipLines ops w i j ks (upd lines k l)
+
+/-- `flipColumnsAndRows(i,j)`; `none` = an access outside a line buffer -/
+def flip (ops : BaseOps W V) (m : CMG W V) (i j : Nat) : Option (CMG W V) :=
+  if i = j then some m else
+  let (i, j) := if i > j then (j, i) else (i, j)
+  match flipLines ops m.w i j (List.range m.n) m.cache.core.lines with
+  | none => none
+  | some lines' =>
+    let c1 : LRUP V := { m.cache with core := { m.cache.core with lines := lines' } }
+    some { m with cache := c1.swapLineIndices i j, w := ops.flip m.w i j }
+
+def setMaxCachedIndex (m : CMG W V) (n' : Nat) : CMG W V :=
+  { m with cache := (List.range (m.n - n')).foldl (fun c d => c.markForDeletion (n' + d)) m.cache }
+
+def clear (m : CMG W V) : CMG W V := { m with cache := m.cache.clear }
+
+end CMG
+end SharkVerif.Cache
